@@ -40,7 +40,7 @@ def argv_of(o: dict) -> list[str]:
     if o.get("invariant"):
         a += ["-I"]
     for k, flag in (("clock", "--clock"), ("heights", "--heights"), ("coalescent", "--coalescent"), ("birth_death", "--birth-death"),
-                    ("grid", "--grid"), ("cutoff", "--cutoff"), ("brlenspr", "--brlenspr"), ("frequencies", "-f"), ("rate", "--rate"),
+                    ("grid", "--grid"), ("cutoff", "--cutoff"), ("brlenspr", "--brlenspr"), ("clockpr", "--clockpr"), ("frequencies", "-f"), ("rate", "--rate"),
                     ("rate_init", "--rate_init"), ("root_height_init", "--root_height_init"), ("brlens_init", "--brlens_init"),
                     ("heights_init", "--heights_init"), ("coalescent_init", "--coalescent_init"), ("coalescent_integrated", "--coalescent_integrated"),
                     ("coalescent_temperature", "--coalescent_temperature"), ("variational", "-q"), ("distribution", "--distribution"),
